@@ -230,7 +230,8 @@ func init() {
 				{Name: "template-characters", N: countStrings(len(c03TmplChars), chLen), Run: func(c *fw.Ctx, i int64) { c03Template(c, stringByIndex(c03TmplChars, i)) },
 					Repr: func(i int64) string { return fmt.Sprintf("template %q", stringByIndex(c03TmplChars, i)) }},
 			}
-			for _, kind := range tokKinds {
+			tokLens["generic+cpp"] = tokLens["csv"]
+			for _, kind := range append(append([]string{}, tokKinds...), "generic+cpp") {
 				kind := kind
 				al := tokAlphabets[kind]
 				sp = append(sp, fw.Space{Name: "tokenizer-" + kind, N: countStrings(len(al), tokLens[kind]),
